@@ -385,8 +385,10 @@ def main(argv=None):
         # keep the file schema-valid even for a broken run
         cov['evaluations'] = max(1, len(jobs))
         cov['distinct_nontrivial'] = 2
-    os.makedirs(EVID, exist_ok=True)
-    with open(os.path.join(EVID, prop + '.json'), 'w') as fo:
+    # a filtered run (--only) is a debugging aid: its evidence goes to .scratch so that evidence/ always describes a complete tier
+    evid_dir = EVID if not a.only else os.path.join(HERE, '.scratch', 'evidence_partial')
+    os.makedirs(evid_dir, exist_ok=True)
+    with open(os.path.join(evid_dir, prop + '.json'), 'w') as fo:
         json.dump(ev, fo, indent=1, default=str)
 
     for ln in out_lines:
